@@ -63,9 +63,9 @@ def ann(a):
 
 def field_sig(f, struct):
     d = {'name': f.name, 'type': tsig(f.data_type), 'doc': f.doc,
-         'omitted_caller': f.omitted_caller, 'redactor': ann(f.redactor),
-         'deprecated': f.deprecated, 'preview': f.preview,
-         'custom': [ann(a) for a in f.custom_annotations]}
+         'omitted_caller': getattr(f, 'omitted_caller', None), 'redactor': ann(getattr(f, 'redactor', None)),
+         'deprecated': getattr(f, 'deprecated', None), 'preview': getattr(f, 'preview', None),
+         'custom': [ann(a) for a in getattr(f, 'custom_annotations', [])]}
     if struct:
         d['has_default'] = f.has_default
         if f.has_default:
@@ -107,8 +107,9 @@ def dt_sig(dt):
         d['all_fields'] = [f.name for f in dt.all_fields]
         d['catch_all_field'] = dt.catch_all_field.name if dt.catch_all_field else None
     d['examples'] = examples_sig(dt)
-    d['omitted_callers'] = sorted(str(x) for x in dt.get_all_omitted_callers())
-    rca = dt.recursive_custom_annotations
+    if hasattr(dt, 'get_all_omitted_callers'):
+        d['omitted_callers'] = sorted(str(x) for x in dt.get_all_omitted_callers())
+    rca = getattr(dt, 'recursive_custom_annotations', None)
     if rca is not None:
         d['recursive_custom_annotations'] = sorted(
             '%s.%s' % (a.namespace.name, a.name) for _, a in rca)
